@@ -318,12 +318,23 @@ pub fn exec(p: &[&str], scratch: &str) -> String {
             let inp = serialise(&recs, p[8], p[9].parse().unwrap(), &d, "in");
             let out = format!("{}/out.vec", d);
             let mut c = composition::oligo::OligoComputer::new(inp, out.clone(), p[1].parse().unwrap());
-            c.set_norm(p[2] == "1"); c.set_header(p[3] == "1");
-            c.set_delim(String::from_utf8(unhex(p[4])).unwrap());
-            let t: usize = p[5].parse().unwrap(); if t > 0 { c.set_threads(t); }
-            c.set_max_memory(p[6].parse().unwrap());
-            let r = match p[7] { "mmap" => c.verif_vectorise_mmap(), "batch" => c.verif_vectorise_batch(), _ => c.vectorise() };
-            if let Err(e) = r { return format!("ERR {}", e); }
+            let (norm, hdr, delim) = (p[2] == "1", p[3] == "1", String::from_utf8(unhex(p[4])).unwrap());
+            let t: usize = p[5].parse().unwrap();
+            // the settings are what the LAST call of each setter said, in whatever order and however often the setters
+            // were called, and an object can be run more than once: the way the calls are made varies with the case
+            let variant = p.iter().map(|x| x.len()).sum::<usize>() % 4;
+            match variant {
+                1 => { c.set_max_memory(p[6].parse().unwrap()); if t > 0 { c.set_threads(t); } c.set_delim(delim.clone()); c.set_header(hdr); c.set_norm(norm); }
+                2 => {
+                    c.set_header(!hdr); c.set_delim("#@#".to_string()); c.set_norm(!norm); if t > 0 { c.set_threads(3); } c.set_max_memory(7);
+                    c.set_norm(norm); c.set_header(hdr); c.set_delim(delim.clone()); if t > 0 { c.set_threads(t); }
+                    c.set_max_memory(p[6].parse().unwrap());
+                }
+                _ => { c.set_norm(norm); c.set_header(hdr); c.set_delim(delim.clone()); if t > 0 { c.set_threads(t); } c.set_max_memory(p[6].parse().unwrap()); }
+            }
+            let run = |c: &composition::oligo::OligoComputer| match p[7] { "mmap" => c.verif_vectorise_mmap(), "batch" => c.verif_vectorise_batch(), _ => c.vectorise() };
+            if let Err(e) = run(&c) { return format!("ERR {}", e); }
+            if variant == 3 { if let Err(e) = run(&c) { return format!("ERR second run {}", e); } }
             hex(&std::fs::read(&out).unwrap())
         }
         "cgrfile" => {
@@ -335,7 +346,8 @@ pub fn exec(p: &[&str], scratch: &str) -> String {
             let mut c = composition::cgr::CgrComputer::new(inp, out.clone(), p[1].parse().unwrap());
             let t: usize = p[2].parse().unwrap(); if t > 0 { c.set_threads(t); }
             c.verif_set_max_memory(p[3].parse().unwrap());
-            let r = std::panic::catch_unwind(std::panic::AssertUnwindSafe(|| c.vectorise()));
+            let twice = p.iter().map(|x| x.len()).sum::<usize>() % 3 == 0;
+            let r = std::panic::catch_unwind(std::panic::AssertUnwindSafe(|| { if twice { let _ = c.vectorise(); } c.vectorise() }));
             match r { Ok(Ok(())) => parse_points(&String::from_utf8_lossy(&std::fs::read(&out).unwrap()), 2), _ => refusal(&out, &recs) }
         }
         "ocgrfile" => {
@@ -345,9 +357,12 @@ pub fn exec(p: &[&str], scratch: &str) -> String {
             let inp = serialise(&recs, p[6], 60, &d, "in");
             let out = format!("{}/out.cgr", d);
             let mut c = composition::oligocgr::OligoCgrComputer::new(inp, out.clone(), p[1].parse().unwrap(), p[2].parse().unwrap());
+            let variant = p.iter().map(|x| x.len()).sum::<usize>() % 3;
+            if variant == 1 { c.set_norm(p[3] != "1"); }
             c.set_norm(p[3] == "1");
             let t: usize = p[4].parse().unwrap(); if t > 0 { c.set_threads(t); }
             c.verif_set_max_memory(p[5].parse().unwrap());
+            if variant == 2 { let _ = c.vectorise(); }
             match c.vectorise() { Ok(()) => parse_points(&String::from_utf8_lossy(&std::fs::read(&out).unwrap()), 3), Err(e) => format!("ERR {}", e) }
         }
         "ctr" => {
@@ -371,6 +386,8 @@ pub fn exec(p: &[&str], scratch: &str) -> String {
             let inp = serialise(&recs, p[8], 60, &d, "in");
             let od = format!("{}/out", d); std::fs::create_dir_all(&od).unwrap();
             let mut c = coverage::CovComputer::new(inp.clone(), od.clone(), p[1].parse().unwrap(), p[2].parse().unwrap(), p[3].parse().unwrap());
+            let variant = p.iter().map(|x| x.len()).sum::<usize>() % 3;
+            if variant == 1 { c.set_delim("#@#".to_string()); c.set_norm(p[4] != "1"); }
             c.set_norm(p[4] == "1");
             c.set_delim(String::from_utf8(unhex(p[5])).unwrap());
             let t: usize = p[6].parse().unwrap(); if t > 0 { c.set_threads(t); }
@@ -378,9 +395,18 @@ pub fn exec(p: &[&str], scratch: &str) -> String {
             // the same ceiling drives the counter: 5e-8 GB makes it count in many chunks and partitions
             c.set_max_memory(if p[7] == "1" { if recs.len() % 2 == 0 { 0.5 } else { 0.00000005 } } else { 6.0 });
             let alt = unhex_list(p[10]);
+            if variant == 2 {
+                // the same object was used before, with another counting input: table and vectors are recomputed
+                let other: Vec<Vec<u8>> = vec![b"GATTACAGATTACAGGGGGGGGGGGGGGGGGGGGGGGGGGGGGGGGGGGGGGGGGGGGGATTACA".to_vec(), recs.concat()];
+                c.set_kmer_path(serialise(&other, "fa", 0, &d, "other"));
+                c.build_table().unwrap();
+                c.compute_coverages();
+                c.set_kmer_path(inp.clone());
+            }
             if alt != recs { c.set_kmer_path(serialise(&alt, "fa", 0, &d, "alt")); }
             c.build_table().unwrap();
             c.compute_coverages();
+            if variant == 2 { c.compute_coverages(); }          // the vectors file is recomputed from the same table
             format!("{}{}", hex(&std::fs::read(format!("{}/kmers.vectors", od)).unwrap()), leftover(&od))
         }
         "cli" => {
